@@ -600,6 +600,80 @@ def r6_filter_before_split(rep, src, M):
         raise AnalysisError('only %d calls of the paragraph splitter found (2 confirmed on the pinned tree)' % n)
 
 
+PLAIN_CODECS = {'utf-8', 'utf8', 'ascii', 'us-ascii', 'latin-1', 'latin1', 'iso-8859-1'}
+
+
+def r8_piecewise_encoding(rep, src):
+    """one document is one stream of bytes: wherever the module turns text into bytes piece by piece (a call of str.encode, or of a
+    helper that passes its argument on to str.encode, inside a loop, comprehension or generator), the codec is a decided constant
+    that writes no signature -- utf-8-sig, utf-16 and utf-32 put a byte order mark in front of every piece, which the reader then
+    takes for part of a field name.  A caller's or the paragraph's codec is applied to the whole text at once (or through an
+    incremental encoder)"""
+    mod = src.mod('deb822')
+    # helpers that hand one of their parameters to str.encode: {name: index of the codec parameter}
+    helpers = {}
+    for f in mod.funcs.values():
+        ps = [a.arg for a in f.node.args.args]
+        for c in ast.walk(f.node):
+            if isinstance(c, ast.Call) and isinstance(c.func, ast.Attribute) and c.func.attr == 'encode' and len(c.args) == 1 and isinstance(c.args[0], ast.Name) \
+                    and c.args[0].id in ps and isinstance(c.func.value, ast.Name) and c.func.value.id in ps:
+                helpers[f.node.name] = ps.index(c.args[0].id) - (1 if ps and ps[0] in ('self', 'cls') else 0)
+    n = 0
+    for f in mod.funcs.values():
+        from ..core import set_parents
+        set_parents(f.node)
+        encoders = set()
+        for st in ast.walk(f.node):
+            if isinstance(st, ast.Assign) and len(st.targets) == 1 and isinstance(st.targets[0], ast.Name) and 'incrementalencoder' in norm(st.value).lower():
+                encoders.add(st.targets[0].id)
+        for c in walk_no_nested(f.node):
+            if not (isinstance(c, ast.Call) and isinstance(c.func, (ast.Attribute, ast.Name))):
+                continue
+            nm = c.func.attr if isinstance(c.func, ast.Attribute) else c.func.id
+            if nm == 'encode' and isinstance(c.func, ast.Attribute):
+                if isinstance(c.func.value, ast.Name) and c.func.value.id in encoders:
+                    continue
+                codec = c.args[0] if c.args else next((k.value for k in c.keywords if k.arg == 'encoding'), None)
+            elif nm in helpers and len(c.args) > helpers[nm]:
+                codec = c.args[helpers[nm]]
+            else:
+                continue
+            a_ = c
+            per_piece = False
+            while getattr(a_, '_parent', None) is not None and a_ is not f.node:
+                a_ = a_._parent
+                if isinstance(a_, (ast.For, ast.While, ast.GeneratorExp, ast.ListComp, ast.SetComp, ast.DictComp)):
+                    per_piece = True
+            if not per_piece and any(isinstance(x, (ast.Yield, ast.YieldFrom)) for x in walk_no_nested(f.node)):
+                per_piece = True
+            if not per_piece:
+                continue
+            n += 1
+            what = 'text turned into bytes piece by piece: `%s`' % norm(c)[:60]
+            val = None
+            if codec is None:
+                val = 'utf-8'
+            elif isinstance(codec, ast.Constant):
+                val = codec.value
+            elif isinstance(codec, ast.Name):
+                # one constant binding in this function or an enclosing one
+                scopes = [f.node]
+                outer = [g for g in mod.funcs.values() if g.node is not f.node and any(x is f.node for x in ast.walk(g.node))]
+                scopes += [g.node for g in outer]
+                if not any(codec.id in [a.arg for a in sc.args.args + sc.args.kwonlyargs] for sc in scopes[:1]):
+                    binds = [st for sc in scopes for st in ast.walk(sc) if isinstance(st, ast.Assign) and any(isinstance(t, ast.Name) and t.id == codec.id for t in st.targets)]
+                    if len(binds) == 1 and isinstance(binds[0].value, ast.Constant):
+                        val = binds[0].value.value
+            if isinstance(val, str) and val.lower().replace('_', '-') in PLAIN_CODECS:
+                rep.ok('C02.R8', f.site, what, 'codec %r writes no signature' % val)
+            else:
+                rep.fail('C02.R8', f.site, what, 'the pieces of one document are encoded separately with `%s`, which is not a decided signature-free codec: with utf-8-sig, utf-16 or utf-32 '
+                         '(a caller\'s encoding=, or the encoding the paragraph was read with) a byte order mark is written in front of every piece, and reading the bytes back '
+                         'gives field names that begin with U+FEFF -- the output is not the encoding of dump()' % norm(codec)[:40], where='%s:%d' % (mod.relpath, c.lineno))
+    if n < 2:
+        raise AnalysisError('C02.R8: fewer than two piecewise encoders found (%d)' % n)
+
+
 def r7_encoding_reaches_decoder(rep, src):
     """a reader that turns text lines into bytes before handing them to the paragraph parser (to keep the raw bytes of a signed
     document) must have them decoded with the encoding it encoded them with: the encoding argument of the encode helper flows
@@ -737,3 +811,5 @@ def check(src, rep, tier):
     rep.guard('C02.R6', r6_filter_before_split, src, M)
     rep.need('C02.R7', 1)
     rep.guard('C02.R7', r7_encoding_reaches_decoder, src)
+    rep.need('C02.R8', 2)
+    rep.guard('C02.R8', r8_piecewise_encoding, src)
